@@ -418,16 +418,15 @@ def memo_dict(repo_index, cls, table, owner):
                         ch = _attr_chain(t.value) if isinstance(t.value, ast.Attribute) else None
                         if is_table(ch, g):
                             stores.append((q, node, t))
-                    if isinstance(t, ast.Attribute) and is_table(_attr_chain(t), g):
-                        dels.append(f"{q}: rebinding")
-            if isinstance(node, ast.Call) and isinstance(node.func, ast.Attribute) and node.func.attr in ("clear", "pop", "popitem", "update", "setdefault", "__delitem__"):
+                    if isinstance(t, ast.Attribute) and is_table(_attr_chain(t), g) and not (isinstance(node, ast.Assign) and isinstance(node.value, ast.Dict) and not node.value.keys):
+                        dels.append(f"{q}: rebinding to a non-empty table")
+            # clearing / evicting entries keeps "a hit returns what a miss would compute"; only foreign
+            # INSERTIONS can break it
+            if isinstance(node, ast.Call) and isinstance(node.func, ast.Attribute) and node.func.attr in ("update", "setdefault"):
                 ch = _attr_chain(node.func.value) if isinstance(node.func.value, ast.Attribute) else None
                 if is_table(ch, g):
                     dels.append(f"{q}: .{node.func.attr}()")
-            if isinstance(node, ast.Delete):
-                for t in node.targets:
-                    if isinstance(t, ast.Subscript) and isinstance(t.value, ast.Attribute) and is_table(_attr_chain(t.value), g):
-                        dels.append(f"{q}: del")
+
     if not stores:
         return [_rec(name, "memo-invariant", f"{cls}.{owner}", "undecided", "no store into the memo table found")]
     foreign = sorted({q for q, _n, _t in stores if q != f"{cls}.{owner}"})
@@ -450,7 +449,7 @@ def memo_dict(repo_index, cls, table, owner):
             if extra:
                 problems.append(f"value reads {extra}")
     status = "refuted" if problems else "discharged"
-    return [_rec(name, "memo-invariant", f"{cls}.{owner}", status, "; ".join(problems) if problems else f"{len(stores)} store(s), key = parameter, value computed from the key only, never cleared")]
+    return [_rec(name, "memo-invariant", f"{cls}.{owner}", status, "; ".join(problems) if problems else f"{len(stores)} store(s), key = parameter, value computed from the key only, evictions allowed")]
 
 
 def lru_purity(repo_index, qualname, allow_io=False):
